@@ -60,17 +60,23 @@ type ChainW struct {
 	KeepCached  bool      `json:"keep_cached"` // writer never empties the block cache (known nil-tip window avoided)
 	StableFrom  bool      `json:"stable_from"` // GetBlocksFromID only with ids of stable blocks (known range underflow avoided)
 	MinReader   int       `json:"min_reader_ops"`
+	NoRemoveOrd bool      `json:"no_remove_order,omitempty"` // remove-path ordering oracle not evaluated (known finding C20-F13)
+	Subscribers int       `json:"subscribers,omitempty"`     // live subscribers of EventBlockNew / EventBlockDelete checking what the event promises
 	Readers     []ReaderW `json:"readers"`
 }
 
 const churnMargin = 2 // blocks Stable+1..Stable+churnMargin are added once and never removed
 
 type binfo struct {
-	height uint32
-	id     []byte
-	enc    []byte // encoded block
-	hdrEnc []byte
-	txIDs  [][]byte
+	height     uint32
+	id         []byte
+	enc        []byte // encoded block
+	hdrEnc     []byte
+	txIDs      [][]byte
+	txEnc      [][]byte
+	evEnc      [][]byte    // events the fake application emits for the block (what the Executer commits with it)
+	remStarted atomic.Bool // set before the writer asks the Executer to delete this block, never cleared
+	readded    atomic.Bool // a block with the same ID was built a second time (empty payload, same salt): nothing strict about it
 }
 
 type txinfo struct {
@@ -95,19 +101,29 @@ type chainEnv struct {
 	underflow  atomic.Bool  // the known range underflow was hit once: stop provoking it (each hit asks for 32 GiB)
 	floor      uint32       // the writer never removes a block at height <= floor
 	nonce      uint64
+	remBegin   atomic.Int64 // removals begun / finished by the writer
+	remEnd     atomic.Int64
 }
 
 func newBinfo(b *blockchain.Block) *binfo {
 	bi := &binfo{height: b.Header.Height, id: append([]byte{}, b.Header.ID...), enc: b.Encode(), hdrEnc: b.Header.Encode()}
 	for _, tx := range b.Transactions {
 		bi.txIDs = append(bi.txIDs, append([]byte{}, tx.ID...))
+		bi.txEnc = append(bi.txEnc, tx.Encode())
+	}
+	for _, ev := range node.ExpectedEvents(b.Header.Height, b.Assets, b.Transactions) {
+		bi.evEnc = append(bi.evEnc, ev.Encode())
 	}
 	return bi
 }
 
 func (e *chainEnv) register(b *blockchain.Block) *binfo {
 	bi := newBinfo(b)
-	e.registry.Store(string(bi.id), bi)
+	if old, loaded := e.registry.LoadOrStore(string(bi.id), bi); loaded {
+		bi = old.(*binfo)
+		bi.readded.Store(true)
+		bi.remStarted.Store(true)
+	}
 	for _, tx := range b.Transactions {
 		e.txReg.Store(string(tx.ID), &txinfo{id: append([]byte{}, tx.ID...), enc: tx.Encode()})
 	}
@@ -224,6 +240,7 @@ func runChain(r *run) {
 			e.reader(i, newPRNG(r.w.Seed, 100+i), rds[i].prog)
 		}()
 	}
+	e.startSubscribers(&wg, start)
 	close(start)
 	r.watch()
 	wg.Wait()
@@ -314,7 +331,12 @@ func (e *chainEnv) writer(p *prng, prog *atomic.Int64) {
 			if emptying {
 				e.refill.Add(1)
 			}
+			if bi := e.lookup(tip.Header.ID); bi != nil {
+				bi.remStarted.Store(true)
+			}
+			e.remBegin.Add(1)
 			err := e.n.Exec.VerifDeleteBlock(tip, p.intn(2) == 0)
+			e.remEnd.Add(1)
 			if emptying {
 				e.refill.Add(1)
 			}
@@ -528,7 +550,9 @@ func (e *chainEnv) readOp(name string, p *prng, bulk int, rw *ReaderW) {
 	switch name {
 	case "LastBlock":
 		before := e.refill.Load()
-		e.checkTip("LastBlock", e.n.Chain.LastBlock(), before)
+		b := e.n.Chain.LastBlock()
+		e.checkCommitted("LastBlock", b, p)
+		e.checkTip("LastBlock", b, before)
 	case "GetLastBlock":
 		before := e.refill.Load()
 		b, err := da.GetLastBlock()
@@ -540,6 +564,7 @@ func (e *chainEnv) readOp(name string, p *prng, bulk int, rw *ReaderW) {
 			e.r.fail("error:GetLastBlock", "%v", err)
 			return
 		}
+		e.checkCommitted("GetLastBlock", b, p)
 		e.checkTip("GetLastBlock", b, before)
 	case "GetLastNBlocks":
 		k := 1 + p.intn(12)
@@ -811,6 +836,7 @@ func (e *chainEnv) readOp(name string, p *prng, bulk int, rw *ReaderW) {
 			e.r.fail("incomplete-tip:rpcLastBlock", "answer does not decode: %v", err)
 			return
 		}
+		e.checkCommitted("rpcLastBlock", b, p)
 		e.checkTip("rpcLastBlock", b, before)
 	case "rpcHighestCommon":
 		k := 1 + p.intn(bulk)
